@@ -229,15 +229,15 @@ prop('C18', units=['fr', 'ut'], level='proof',
                   'nodes of a rowan tree are nested or disjoint'])
 
 prop('C19', units=['ih', 'hv'], level='proof',
-     bounded=[dict(test='c19_hints', covers='the hover signature, the choice of the declaration whose comments are shown, and the label and placement clauses of C19 (hover::exec / extract_symbol_signature / the rowan navigation at the head of extract_doc_comments, inlay_hint_class, inlay_hint_record_field: rowan navigation and format!, outside the contracts)',
+     bounded=[dict(test='c19_hints', covers='the hover signature, which declaration is found at the position, and the label and placement clauses of C19 (hover::exec / extract_symbol_signature / the rowan navigation at the head of extract_doc_comments, inlay_hint_class, inlay_hint_record_field: rowan navigation and format!, outside the contracts)',
                    bound='a fixed corpus written from the property statement: 5 workspaces; hover at 9 use sites (class with two contiguous // lines below a blank-line-separated comment, overridden field, template argument, undocumented class, def, defvar, defset used as a value, multiclass, inherited field) compared with the expected signature and doc text and with the go-to-definition target; hover on a class of an included file; the full hint list (7 hints: positional arguments of a parent-class reference spread over two lines and of a class value, two field overrides) compared by position, label and kind; a class named as a type inside an argument gets no hint of its own')],
      explanation=('Partial: the range clause of the hints and the doc-comment rule of hover. Unit HV: Verus proves on the real text of ide::handlers::hover::extract_doc_comments that the text it returns is exactly '
                   'the contiguous `//` comment lines directly above the first token of the declaration, top to bottom, joined by line feeds (reference: doc_lines, written from the statement: a line counts while the token above is a blank with exactly one line feed '
-                  'preceded by a line comment starting with `//`), and that None is returned only when that text is empty; the walk is a loop invariant over the assumed token-sequence model of rowan (prev_token). Unit IH: Verus proves on the real text of ide::handlers::inlay_hint::exec that every hint it returns has its position inside the requested range: '
+                  'preceded by a line comment starting with `//`), and that None is returned only when that text is empty; the walk is a loop invariant over the assumed token-sequence model of rowan (prev_token). The same unit proves for hover::exec that the tree handed to it is the parse of the file the declaration lies in, at the declaration\'s range (ghost functions tree_of(db, file) and sig_loc(symbol map, position); db.parse / Parse::syntax_node / db.index / Index::symbol_map assumed to be functions of the revision), so the doc text shown is doc_lines of that file. Unit IH: Verus proves on the real text of ide::handlers::inlay_hint::exec that every hint it returns has its position inside the requested range: '
                   'the filter closure of the final hints.retain(..) is moved into a function and proved to answer start <= position <= end, and Vec::retain is assumed to keep exactly the '
-                  'elements for which it answers true. What the gathering loop produces (rowan navigation, format!) is not constrained. NOT proved: the hover signature, which declaration the navigation reaches and which file is parsed for it, that '
+                  'elements for which it answers true. What the gathering loop produces (rowan navigation, format!) is not constrained. NOT proved: the hover signature, which declaration extract_symbol_signature and the navigation reach, that '
                   'each positional template argument is labelled with the parameter it binds, that a field override is labelled with the declared type, and the placement of the hints - these are covered only by a BOUNDED stand-in (fixed corpus, not counted as proved).'),
      assumptions=['Verus/Z3/rustc sound; extraction faithful (round-trip audit)',
                   'TextRange::contains_inclusive(o) is start <= o <= end (text-size); Vec::retain keeps exactly the elements for which the closure answers true (R14 helper)',
                   'the loop that gathers the hints is outlined (R14) with no contract: nothing about its result is used',
-                  'unit HV: rowan token model (tokens of a file form one sequence, prev_token steps back by one, kind() is the recorded kind); R14 helpers with ASSUMED contracts: o_decl_first_token (navigation to the declaration\'s first token, result = decl_first, unconstrained), o_newline_count (line feeds of the token text), o_doc_line (Some(text without leading slashes and blanks) iff the text starts with //), o_join_reversed (reverse + join by line feeds); derived PartialEq on SyntaxKind is structural'])
+                  'unit HV: rowan token model (tokens of a file form one sequence, prev_token steps back by one, kind() is the recorded kind); R14 helpers with ASSUMED contracts: o_decl_first_token (navigation to the declaration\'s first token, result = decl_first, unconstrained), o_newline_count (line feeds of the token text), o_doc_line (Some(text without leading slashes and blanks) iff the text starts with //), o_join_reversed (reverse + join by line feeds); derived PartialEq on SyntaxKind is structural; extract_symbol_signature is external_body (its location result is named sig_loc, nothing else is assumed of it); the database answers (parse, index) are functions of the revision'])
